@@ -194,10 +194,21 @@ def enc(t, spec, gbuf):
             return None
         return (0 if spec[1] is None else gbuf + spec[1]).to_bytes(8, "little")
     if k == 'union':
-        if spec[0] != "union":
+        if spec[0] not in ("union", "unionp"):
             return None
         b = enc(cc.UNIONS[t][1], spec[1], gbuf)
-        return b + b"\0" * (s - len(b))
+        return None if b is None else b + b"\0" * (s - len(b))
+    if k == 'struct' and spec[0] in ("structp", "structd"):
+        # partial initializer applied to a ZEROED struct
+        given = dict(zip([fn for fn, ft in cc.STRUCTS[t]], spec[1])) if spec[0] == "structp" else dict(spec[1])
+        out = b""
+        for fn, ft in cc.STRUCTS[t]:
+            pad = (-len(out)) % cc.alignof(ft)
+            fb = enc(ft, given[fn], gbuf) if fn in given else b"\0" * csize(ft)
+            if fb is None:
+                return None
+            out += b"\0" * pad + fb
+        return out + b"\0" * (s - len(out))
     if k == 'struct':
         if spec[0] != "struct":
             return None
@@ -254,6 +265,31 @@ def gen_sig(rng, i, allow_complex):
     args = [rng.choice(pool) for _ in range(nargs)]
     res = rng.choice(pool + ['void', 'void', 'int', 'short', 'signed char'] + (['double _Complex'] * 4 if allow_complex else []))
     return dict(args=args, res=res, consts=[gen_const(rng, t) for t in args])
+
+
+def partial_error(rng, R):
+    """a PARTIAL initializer for a struct/union error value: short list, dict naming some fields, or a union member"""
+    if ckind(R) == 'union':
+        return ["unionp", ret_spec(cc.UNIONS[R][1], gen_const(rng, cc.UNIONS[R][1]))]
+    flds = cc.STRUCTS[R]
+    vals = [ret_spec(ft, gen_const(rng, ft)) for fn, ft in flds]
+    if rng.random() < 0.5 or len(flds) == 1:
+        return ["structp", vals[:rng.randrange(0, len(flds))]]
+    keep = sorted(rng.sample(range(len(flds)), rng.randrange(1, len(flds))))
+    return ["structd", [[flds[i][0], vals[i]] for i in keep]]
+
+
+def partial_error_scenarios(rng, sigs, si, out, count):
+    """struct/union result, error= given as a partial initializer, failing body: C must receive the initializer applied
+    to a zeroed object (the heap is dirtied first)"""
+    sig = sigs[si]
+    R = sig["res"]
+    only_x = ckind(R) == 'union' or any(ckind(a) in ('union', 'complex') for a in sig["args"])
+    for _ in range(count):
+        path = "externpy" if only_x else rng.choice(["externpy", "callback"])
+        body = ["raise"] if rng.random() < 0.6 else ["ret", gen_bad_ret(rng, R)]
+        out.append(dict(id=len(out), sig=si, path=path, body=body, error=partial_error(rng, R),
+                        onerror=rng.choice([["none"], ["retnone"]]), wide=False, dirty=True, fullmask=(ckind(R) == 'union')))
 
 
 def gen_scenarios(rng, sigs, si, n, out):
@@ -316,9 +352,15 @@ def generate(ctx):
         sigs.append(dict(args=["double _Complex", "int"], res="int", consts=[gen_const(rng, "double _Complex"), 5]))
         sigs.append(dict(args=["double _Complex", "double _Complex", "short"], res="void",
                          consts=[[d2hex(1.0), d2hex(2.0)], [d2hex(3.0), d2hex(4.0)], -7]))
+        first_partial = len(sigs)
+        for t in ['struct s1', 'struct s2', 'struct s3', 'struct s5', 'struct s6', 'union u2', 'union u3', 'union u5']:
+            sigs.append(dict(args=[], res=t, consts=[]))
+            sigs.append(dict(args=["int"], res=t, consts=[gen_const(rng, "int")]))
         scen = []
         for si in range(len(sigs)):
             gen_scenarios(rng, sigs, si, ctx.n(8, 12), scen)
+            if ckind(sigs[si]["res"]) in ('struct', 'union'):
+                partial_error_scenarios(rng, sigs, si, scen, 4 if si >= first_partial else 2)
         # regression (fixed finding onerror_bad_value): body fails, error=1, onerror returns an unconvertible value
         sigs.append(dict(args=["int"], res="uint32_t", consts=[3]))
         for bad in (["int", 1 << 32], ["str", [97]]):
@@ -528,6 +570,8 @@ def evaluate_batch(ctx, batch, asan):
             got = bytes.fromhex(r["out"])
             n = len(want["out"])
             m = mask(R) if not sc.get("wide") and R != 'void' else [1] * n
+            if sc.get("fullmask"):
+                m = [1] * n
             gotm = bytes(b if k else 0 for b, k in zip(got[:n], m))
             wantm = bytes(b if k else 0 for b, k in zip(want["out"], m))
             if gotm != wantm or got[n:] != b"\xee" * (64 - n):
@@ -554,6 +598,8 @@ def evaluate_batch(ctx, batch, asan):
         else:
             got = bytes.fromhex(r["out"])[:nread]
             m = mask(R) if not sc.get("wide") and R != 'void' else [1] * nread
+            if sc.get("fullmask"):
+                m = [1] * nread
             exp = "(Some ([%s], %d%%nat))" % (";".join("%d" % (b if kk else 0) for b, kk in zip(got, m)), r["printed"])
         coq_cases.append((inp, exp))
         owner.append(sc)
